@@ -14,6 +14,7 @@ RULE = ('60 (1200) function-level cases: fitting_routines.linear_regression / op
         'non-trivial = non-singular regression (condition number < 1e8) with at least one model; distinct = distinct inputs.')
 EXHAUSTIVE = {'quick': False, 'thorough': False}
 ASSUMPTIONS = ['float rounding of the implementation: compared with relative tolerance 1e-10 x condition number of the 2x2 regression',
+               'regressions whose normal equations have a condition number between 1e8 and 1e15 (very unequal weights) are judged on the objective only: S at the reported (A_V, scale) within (1e-6 + 3e-17 x condition) x (1 + S_min) of the exact minimum; beyond 1e15 they are skipped',
                'singular regressions (all extinction coefficients of the fitted bands equal) are outside the quantifier and skipped (counted)',
                'limit bands whose predicted flux is within 1e-9 of the limit are not compared on chi2 (near-tie filter)']
 ALLOWED_AXIOMS = ('ClassicalDedekindReals.sig_forall_dec', 'FunctionalExtensionality.functional_extensionality_dep')
@@ -23,6 +24,12 @@ def generate(tier, seed):
     rng = Rng(seed * 65537 + 1)
     cases = [fitcase.gen_case(rng, '2d') for _ in range(300 if tier == 'quick' else 6000)]
     for k, c in enumerate(cases):
+        if k % 7 == 3:       # one measurement far more precise than the others (relative error 1e-5 .. 1e-7): very unequal weights
+            fit_j = [j for j, f in enumerate(c['src']['flags']) if f in (1, 4)]
+            j = rng.choice(fit_j)
+            rel = rng.choice([1e-5, 1e-6, 1e-7])
+            c['src']['err'][j] = c['src']['flux'][j] * rel if c['src']['flags'][j] == 1 else rel
+            c['unequal'] = True
         if k % 2 == 1:       # the Fitter has fitted other sources before (their results are not examined; the judged fit must not depend on them)
             c['warmup'] = [fitcase.gen_source(rng, len(c['wav']), min_fitted=2) for _ in range(rng.randint(1, 2))]
     # function-level correspondence: fitting_routines.* and Source.get_log_fluxes called directly on random arrays
@@ -151,7 +158,11 @@ def judge(case, im, mo):
         return dict(disagree=['driver %r' % (m,)], fail=[], nontrivial=False)
     bands, ks, cond = conditioning(case)
     if cond > 1e8:
-        return dict(disagree=[], fail=[], nontrivial=False, tags=tags + ['singular-skipped'])
+        # the parameters are weakly determined along one direction, but the minimum of S is not: the reported (A_V, scale) must still
+        # reach it (very unequal weights make the normal equations of a well-posed fit ill-conditioned)
+        if cond > 1e15 or 'exc' in im or isinstance(mo[0], tuple):
+            return dict(disagree=[], fail=[], nontrivial=False, tags=tags + ['singular-skipped'])
+        return _judge_illcond(case, im, mo, bands, ks, cond, tags)
     if 'exc' in im:
         return dict(disagree=['implementation raised ' + im['msg']], fail=['raised: Fitter/fit raised %s' % im['msg']], nontrivial=False, tags=tags)
     det, alaw, res = m
@@ -213,3 +224,26 @@ def judge(case, im, mo):
                 fail.append('chi2: chi2 of %s is %r, S + penalties at the reported (A_V, scale) is %r' % (name, chi_i, want))
     tags.append('clamped=%s' % ('some' if nclamp else 'none'))
     return dict(disagree=disagree[:5], fail=fail[:5], nontrivial=True, tags=tags)
+
+
+def _judge_illcond(case, im, mo, bands, ks, cond, tags):
+    import numpy as np
+    det, alaw, res = mo[0]
+    fail = []
+    for i, mid in enumerate(im['model_id']):
+        name = im['model_name'][i]
+        if any(x == 0 for x in case['flux'][mid]):
+            continue
+        av_m, sc_m = res[mid][0], res[mid][1]
+        if not (math.isfinite(im['av'][i]) and math.isfinite(im['sc'][i])):
+            fail.append('optimum: (A_V, scale) of %s is not finite although the regression is not singular (condition %.1e)' % (name, cond))
+            break
+        av_i, sc_i = F(im['av'][i]), F(im['sc'][i])
+        lms = [F(float(np.log10(x))) for x in case['flux'][mid]]
+        s_impl = fitcase.objective(bands, ks, lms, av_i, sc_i)
+        s_min = fitcase.objective(bands, ks, lms, av_m, sc_m)
+        # a backward-stable solver leaves an excess of order eps^2 x condition x (largest weight), hence the second term
+        if s_impl > s_min + F(1e-6 + 3e-17 * cond) * (1 + s_min):
+            fail.append('optimum: (A_V, scale) of %s gives S=%r, the constrained minimum is %r (condition %.1e)' % (name, float(s_impl), float(s_min), cond))
+            break
+    return dict(disagree=[], fail=fail[:3], nontrivial=True, tags=tags + ['ill-conditioned-objective-only'])
